@@ -298,7 +298,11 @@ pub fn c15(seed: u64, tier: u32) -> Report {
             let res = match Yuv::<u16>::new(dummy, cfg_of(16, 0, 0, full, cfg.matrix_coefficients, cfg.transfer_characteristics, cfg.color_primaries)) { Ok(y) => y.config(), Err(_) => continue };
             // in-gamut content: gamma RGB in [0,1]^3 of the *resolved* colour space, brought to linear BT.709
             let lin = match LinearRgb::try_from(Rgb::new(img.clone(), w, h, res.transfer_characteristics, res.color_primaries).unwrap()) { Ok(l) => l, Err(_) => continue };
-            if let Ok(y0) = Yuv::<u16>::try_from((lin.clone(), cfg)) {
+            // both routes into YUV: straight from linear RGB and through XYB (Xyb -> Yuv has its own TryFrom impl)
+            for route in 0..2 {
+            let desc = format!("C15 {}->Yuv cfg={:?} {}x{}", if route == 0 { "LinearRgb" } else { "Xyb" }, cfg, w, h);
+            let conv = if route == 0 { Yuv::<u16>::try_from((lin.clone(), cfg)) } else { Yuv::<u16>::try_from((Xyb::from(lin.clone()), cfg)) };
+            if let Ok(y0) = conv {
                 let c = y0.config();
                 if c.matrix_coefficients == MatrixCoefficients::Unspecified || c.color_primaries == ColorPrimaries::Unspecified || c.transfer_characteristics == TransferCharacteristic::Unspecified { rep.fail("output reports Unspecified", desc.clone(), format!("{:?}", c), "".into()); }
                 if c.transfer_characteristics != res.transfer_characteristics || c.color_primaries != res.color_primaries { rep.fail("stored config is not the resolved config", desc.clone(), format!("{:?}", c), format!("{:?}", res)); }
@@ -312,13 +316,15 @@ pub fn c15(seed: u64, tier: u32) -> Report {
                 for (a, b) in dec.data().iter().zip(img.iter()) { for k in 0..3 { rep.evaluated += 1; let d = (a[k] - b[k]).abs() as f64; rep.note("decode-with-own-label error", d, tol);
                     if !(d <= tol) { rep.fail("output labelled with a config that does not describe its content", desc.clone(), format!("{:?}", a), format!("{:?}", b)); } } }
             }
+            }
             // Rgb route: Rgb::try_from((LinearRgb, t, p)) stores the resolved transfer/primaries and LinearRgb::try_from inverts it
             let (rt, rp) = (if tc == "Unspecified" { TransferCharacteristic::SRGB } else { tc_of(tc).unwrap() }, if p == "Unspecified" { ColorPrimaries::BT709 } else { cp_of(p).unwrap() });
             let lin2 = match LinearRgb::try_from(Rgb::new(img.clone(), w, h, rt, rp).unwrap()) { Ok(l) => l, Err(_) => continue };
-            if let Ok(rgb) = Rgb::try_from((lin2, tc_of(tc).unwrap(), cp_of(p).unwrap())) {
+            let rgb_routes = [Rgb::try_from((lin2.clone(), tc_of(tc).unwrap(), cp_of(p).unwrap())), Rgb::try_from((Xyb::from(lin2), tc_of(tc).unwrap(), cp_of(p).unwrap()))];
+            for rr in rgb_routes { if let Ok(rgb) = rr {
                 if rgb.transfer() != rt || rgb.primaries() != rp { rep.fail("Rgb stores a label that is not the resolved one", desc.clone(), format!("{:?} {:?}", rgb.transfer(), rgb.primaries()), format!("{:?} {:?}", rt, rp)); }
                 for (a, b) in rgb.data().iter().zip(img.iter()) { for k in 0..3 { rep.evaluated += 1; let d = (a[k] - b[k]).abs() as f64; rep.note("Rgb label round trip", d, 0.015); if !(d <= 0.015) { rep.fail("Rgb label does not describe the encoding applied", desc.clone(), format!("{:?}", a), format!("{:?}", b)); } } }
-            }
+            } }
         }
         rep
     }).collect();
